@@ -329,3 +329,12 @@ def depth(m):
 def has_v3(m):
     return any(k in V3_ONLY for _, k in kinds(m) if True) if m[0] != 'grid' else \
         any(k in V3_ONLY for (p, k) in kinds(m) if not (p == 'top' and k == 'grid'))
+
+
+def raw_snapshot(g):
+    """what a caller can observe of a grid without any normalisation: key sets and value identities of every row dict,
+    metadata and column items (used by purity / 'source left untouched' oracles: a None-valued key added to a row is a change)"""
+    return (str(g.version),
+            [(k, id(v)) for k, v in g.metadata.items()],
+            [(c, [(k, id(v)) for k, v in cm.items()]) for c, cm in g.column.items()],
+            [(id(r), sorted((str(k), id(v)) for k, v in r.items())) for r in g])
